@@ -13,7 +13,38 @@ import (
 	"github.com/go-gts/gts/seqio"
 )
 
+// c03EmptyTable: a GenBank record WITHOUT a source feature sliced / erased so that no feature is
+// left: the result has no feature (seeded change W21-1: GenBank.WithFeatures returning the receiver
+// for an empty table, so the old table with its old coordinates stayed).
+func c03EmptyTable(r *Run) {
+	res := []byte("acgtacgtacgtacgtacgtacgtacgtacgtacgtacgtacgtacgtacgtacgtacgtacgtacgtacgtacgtacgt")
+	tab := gts.FeatureSlice{{Key: "gene", Loc: gts.Range(40, 70), Props: gts.Props{}}, {Key: "CDS", Loc: gts.Range(45, 66), Props: gts.Props{}}}
+	for _, circ := range []bool{false, true} {
+		gb := seqio.GenBank{Fields: c15Fields(circ), Table: tab, Origin: seqio.NewOrigin(res)}
+		for _, c := range []struct {
+			name string
+			f    func() gts.Sequence
+		}{
+			{"Slice(0,30)", func() gts.Sequence { return gts.Slice(gb, 0, 30) }},
+			{"Slice(72,80)", func() gts.Sequence { return gts.Slice(gb, 72, 80) }},
+			{"Erase(35,40)", func() gts.Sequence { return gts.Erase(gb, 35, 40) }},
+			{"WithFeatures(nil)", func() gts.Sequence { return gts.WithFeatures(gb, nil) }},
+			{"WithFeatures(empty)", func() gts.Sequence { return gts.WithFeatures(gb, gts.FeatureSlice{}) }},
+		} {
+			line := fmt.Sprintf("seq.emptytable circular=%v %s", circ, c.name)
+			crumb(line)
+			out := guarded(func() string { return fmt.Sprint(len(c.f().Features())) })
+			r.count("seq.slice/table-becomes-empty")
+			r.eval(line, true)
+			if out != "0" {
+				r.fail(Failure{Oracle: "an operation that leaves no feature returns a record without features (GenBank carrier, no source feature)", Op: line, Got: out + " features", Want: "0"})
+			}
+		}
+	}
+}
+
 func c03Topology(r *Run) {
+	c03EmptyTable(r)
 	for _, L := range []int{1, 2, 7, 24} {
 		res := make([]byte, L)
 		for i := range res {
